@@ -126,7 +126,7 @@ def accept(wd, events, name="c04_trace"):
 
 def canonical_texts(wd, n_programs, rng):
     """Rendered canonical programs (with comments, classes, nesting) from a Program.tla run."""
-    consts = dict(MaxItems=7, MaxDepth=3, Reps="{2}", FVariants='{"plain", "multi"}', SVariants='{"plain", "strdelim"}', Allowed='{"F","K","C","E","X","S","M","R"}')
+    consts = dict(MaxItems=7, MaxDepth=3, Reps="{2}", FVariants='{"plain", "multi"}', SVariants='{"plain", "strdelim", "trailing"}', CVariants='{"if", "try"}', Allowed='{"F","K","C","E","X","S","M","R"}')
     m = tlc.run("Program", tlc.cfg(consts, spec="Spec", invariants=["Sane"]), wd, dump=True, cfgname="Program_c04.cfg", coverage=False)
     chunks = [c for c in dump_chunks(m.dump) if "done = TRUE" in c]
     rng.shuffle(chunks)
